@@ -4,6 +4,7 @@
 // verbatim (re-homed as inherent methods: Verus cannot attach contracts to external-trait impls).
 use vstd::prelude::*;
 
+// verif: counter-overflow-undecided
 verus! {
 
 //@ include _std_extra.inc
